@@ -1,6 +1,7 @@
 """C18: real ProxyHandler + real GeminiClient behind a real GeminiServerProtocol; the upstream is a
 scripted peer (bytes in chunks, close / reset / refuse / stall).  Downstream bytes are compared with
 Model.Session.relay and judged by Spec.C18.ok."""
+from pathlib import Path
 import asyncio, itertools
 from common import *
 import clientdrv as cd, serverdrv as sd
@@ -150,6 +151,59 @@ def run(tier, seed):
                                    "signature": "C18:slow-upstream",
                                    "case": {"upstream_answers_after_s": delay, "request_timeout_s": 0.2, "location_timeout_s": 1.0},
                                    "trace": {"downstream": wire[:80].decode("latin-1"), "closed": closed}})
+    # ---- through the configuration layer (TOML [[locations]] -> ServerConfig.from_toml -> get_location_router): several proxy
+    # locations, some fronting the SAME upstream with DIFFERENT timeouts; an upstream that answers after d seconds is relayed by a
+    # location whose timeout exceeds d and answered 43 by one whose timeout is shorter - each location's own timeout
+    async def location_timeouts():
+        from nauyaca.server.config import ServerConfig
+        from nauyaca.protocol.request import GeminiRequest
+        loop = asyncio.get_running_loop()
+        tmp = scratch_dir("nv-c18-")
+        outs = []
+        try:
+            layouts = [[("/archive/", "gemini://up.example:1965", 1.2), ("/live/", "gemini://up.example:1965", 0.25)],
+                       [("/live/", "gemini://up.example:1965", 0.25), ("/archive/", "gemini://up.example:1965", 1.2)],
+                       [("/a/", "gemini://up.example:1965", 0.25), ("/b/", "gemini://other.example:1965", 1.2), ("/c/", "gemini://up.example:1965", 1.2)]]
+            if tier != "quick":
+                layouts.append([("/x/", "gemini://up.example", 1.2), ("/y/", "gemini://up.example", 1.2), ("/z/", "gemini://up.example", 0.25)])
+            delay, reply = 0.6, b"20 text/plain\r\nlate but complete"
+            for li, layout in enumerate(layouts):
+                toml = '[server]\nhost = "127.0.0.1"\nport = 1965\ndocument_root = "%s"\n' % tmp
+                for prefix, up, to in layout:
+                    toml += '\n[[locations]]\nprefix = "%s"\nhandler = "proxy"\nupstream = "%s"\ntimeout = %s\n' % (prefix, up, to)
+                cf = os.path.join(tmp, "loc%d.toml" % li); open(cf, "w").write(toml)
+                router = ServerConfig.from_toml(Path(cf)).get_location_router()
+                async def one(prefix, to):
+                    async def fake_cc(factory, host=None, port=None, ssl=None, server_hostname=None, **kw):
+                        proto = factory(); tr = cd.RecTransport([]); proto.connection_made(tr)
+                        loop.call_later(delay, lambda: None if tr.closed else (proto.data_received(reply), proto.connection_lost(None)))
+                        return tr, proto
+                    loop.create_connection = fake_cc
+                    t0 = loop.time()
+                    try:
+                        r = router.route(GeminiRequest.from_line("gemini://front.example%sfeed" % prefix))
+                        if asyncio.iscoroutine(r): r = await asyncio.wait_for(r, 3.0)
+                        got = (r.status, r.meta, r.body if isinstance(r.body, (bytes, type(None))) else r.body.encode())
+                    except Exception as e:
+                        got = ("exception", type(e).__name__, None)
+                    finally:
+                        del loop.create_connection
+                    return got, loop.time() - t0
+                for prefix, up, to in layout:
+                    got, took = await one(prefix, to)
+                    outs.append((toml, prefix, to, got, took))
+        finally:
+            shutil.rmtree(tmp, ignore_errors=True)
+        return outs
+    for toml, prefix, to, got, took in asyncio.run(location_timeouts()):
+        res.evaluations += 1; res.count("location-timeout")
+        res.nontriv(("location-timeout", toml, prefix))
+        good = (got == (20, "text/plain", b"late but complete")) if to > 0.6 else (got[0] == 43 and took < 0.6)
+        if not good:
+            res.violations.append({"clause": "status 43 when the upstream stalls beyond the LOCATION's timeout (and a slower-than-another-location's answer is relayed), for locations configured in a TOML file",
+                                   "signature": "C18:location-timeout",
+                                   "case": {"toml": toml, "request_path": prefix + "feed", "location_timeout_s": to, "upstream_answers_after_s": 0.6},
+                                   "trace": {"response": [str(x)[:80] for x in got], "answered_after_s": round(took, 2)}})
     def enc_up(up):
         if up[0] == "stream": return ["stream", up[1], [up[2]] if up[2] else []]
         return [up[0]]
